@@ -71,6 +71,10 @@ const (
 type c15Step struct {
 	Head  string      `json:"head"` // "<branch>@<height>"
 	Fault syncx.Fault `json:"fault"`
+	// Same: the step is made by the syncer object that made the previous step (the
+	// keyper process stayed up); every other step is made by a freshly built syncer
+	// on the stored state (what a restarted keyper has).
+	Same bool `json:"same_syncer_object,omitempty"`
 }
 
 type c15Replay struct {
@@ -313,8 +317,29 @@ type c15Outcome struct {
 // step restores s, runs one transition and evaluates the oracle at every commit
 // point and after Sync.
 func (u *c15Unit) step(s *c15State, h fakechain.BlockID, f syncx.Fault) c15Outcome {
+	u.env.DB.Restore(s.snap)
+	u.env.Rebuild() // nothing but the database is carried from step to step
+	return u.stepHere(h, f)
+}
+
+// stepSame runs one more transition on the database and with the syncer object
+// the previous step left behind (the process stayed up, e.g. after a failed Sync).
+func (u *c15Unit) stepSame(h fakechain.BlockID) c15Outcome { return u.stepHere(h, syncx.Fault{}) }
+
+// follow is the head a keyper that stays up sees next after h: the next block of
+// h's branch, or h again at the tip.
+func (u *c15Unit) follow(h fakechain.BlockID) fakechain.BlockID {
+	best := h
+	for _, x := range u.t.heads {
+		if u.t.chain.Block(x).Parent == h && (best == h || x < best) {
+			best = x
+		}
+	}
+	return best
+}
+
+func (u *c15Unit) stepHere(h fakechain.BlockID, f syncx.Fault) c15Outcome {
 	d := u.env.DB
-	d.Restore(s.snap)
 	before := syncx.ReadStatus(d, u.t.kind)
 	var fnd *finding
 	commit := 0
@@ -379,8 +404,16 @@ func replayC15(rp c15Replay) *finding {
 		if cls == "gap" {
 			cls = u.refineGap(s, h)
 		}
-		o := u.step(s, h, st.Fault)
+		var o c15Outcome
+		if st.Same {
+			o = u.stepSame(h)
+		} else {
+			o = u.step(s, h, st.Fault)
+		}
 		where := fmt.Sprintf("step %d of %d (%s, %s): ", i+1, len(rp.Steps), st.Head, cls)
+		if st.Same {
+			where = fmt.Sprintf("step %d of %d (%s, %s, by the syncer object that made the previous step): ", i+1, len(rp.Steps), st.Head, cls)
+		}
 		switch cls {
 		case "admitted":
 			if o.finding != nil && !preStartOnly(o.finding) {
@@ -432,7 +465,7 @@ func c15() *report.Check {
 	return &report.Check{
 		Level: "model_checking",
 		Rule: "explicit-state BFS over (database, position ghost) per (block tree, event placement, syncer); transitions = every head of the tree x " +
-			"{no fault, RPC error at call k, statement error / crash before / crash after database round trip k}; oracle after every Sync and at every commit point",
+			"{no fault, RPC error at call k, statement error / crash before / crash after database round trip k}; every step is made by a freshly built syncer on the stored state, and (where faults are enumerated) after every step and every failed Sync the surviving syncer object handles one more head; oracle after every Sync and at every commit point",
 		Assumptions: []string{
 			"A-HEAD: the canonical branch only changes between Sync calls",
 			"A-ISO: one database session at a time; PostgreSQL semantics as implemented by minipg",
@@ -615,9 +648,11 @@ func runC15(c *report.Ctx) {
 						lowNoop = append(lowNoop, h)
 					}
 					lbl, _ := json.Marshal(step)
-					emit(string(lbl), u.next(s, h, o.dump, false, s2))
+					ns := u.next(s, h, o.dump, false, s2)
+					emit(string(lbl), ns)
 					if w.faults {
-						u.faultSteps(c, s, h, o.res, path, emit, report15)
+						u.continuation(c, ns, h, step, path, report15)
+						u.faultSteps(c, s, h, o.res, path, emit, report15, true)
 					}
 				case "gap":
 					gaps = append(gaps, gapCase{h, o})
@@ -666,7 +701,7 @@ func runC15(c *report.Ctx) {
 						if jf := judgeGap(f); jf != nil {
 							report15(jf, p, st, note)
 						}
-					})
+					}, false)
 				}
 			}
 		}
@@ -716,7 +751,7 @@ func runC15(c *report.Ctx) {
 
 // faultSteps enumerates every single fault inside Sync(h) from state s.
 func (u *c15Unit) faultSteps(c *report.Ctx, s *c15State, h fakechain.BlockID, clean syncx.StepResult, path []string,
-	emit func(string, *c15State), report15 func(*finding, []string, c15Step, string)) {
+	emit func(string, *c15State), report15 func(*finding, []string, c15Step, string), cont bool) {
 	var faults []syncx.Fault
 	for k := 0; k < clean.RPCCalls; k++ {
 		faults = append(faults, syncx.Fault{Type: "rpc", K: k})
@@ -753,6 +788,30 @@ func (u *c15Unit) faultSteps(c *report.Ctx, s *c15State, h fakechain.BlockID, cl
 		}
 		failed := o.res.Err != nil || o.res.Crashed
 		lbl, _ := json.Marshal(step)
-		emit(string(lbl), u.next(s, h, o.dump, failed, s2))
+		ns := u.next(s, h, o.dump, failed, s2)
+		emit(string(lbl), ns)
+		if cont && o.res.Err != nil && !o.res.Crashed {
+			u.continuation(c, ns, h, step, path, report15)
+		}
 	}
+}
+
+// continuation: the keyper process stays up after the step just made (in
+// particular after a Sync that returned an error) and the same syncer object
+// handles the next head. The database and the syncer object are the ones the step
+// left behind; ns is the state after it. Only judged, not explored further.
+func (u *c15Unit) continuation(c *report.Ctx, ns *c15State, h fakechain.BlockID, made c15Step, path []string,
+	report15 func(*finding, []string, c15Step, string)) {
+	h2 := u.follow(h)
+	if u.classify(ns, h2) != "admitted" {
+		return
+	}
+	o := u.stepSame(h2)
+	c.Stats.Evaluations++
+	c.Stats.Count("steps_by_the_surviving_syncer_object", 1)
+	if o.finding == nil || preStartOnly(o.finding) || o.finding.sig == sigSkipsStart {
+		return
+	}
+	lbl, _ := json.Marshal(made)
+	report15(o.finding, append(append([]string{}, path...), string(lbl)), c15Step{Head: u.t.label[h2], Same: true}, "")
 }
